@@ -376,7 +376,54 @@ func lookup(k string) (*T, bool) {
 	}
 }`
 
+// checkTypedNilInterfaces: a pointer that may be nil (the nil constant, or a variable that is nil on some path) is not
+// wrapped into one of the repository's own interface types: the interface value is then not nil, a later `x == nil` test
+// never fires and the first method call dereferences nil (value receiver) or runs on nil.
+func (c *Ctx) checkTypedNilInterfaces() {
+	var mayBeNil func(v ssa.Value, depth int) bool
+	mayBeNil = func(v ssa.Value, depth int) bool {
+		if depth > 3 {
+			return false
+		}
+		switch x := v.(type) {
+		case *ssa.Const:
+			return x.Value == nil
+		case *ssa.Phi:
+			for _, e := range x.Edges {
+				if mayBeNil(e, depth+1) {
+					return true
+				}
+			}
+		}
+		return false
+	}
+	n := 0
+	for _, fn := range c.srcFuncs() {
+		allInstrs(fn, func(in ssa.Instruction) {
+			mi, ok := in.(*ssa.MakeInterface)
+			if !ok {
+				return
+			}
+			if _, isPtr := mi.X.Type().Underlying().(*types.Pointer); !isPtr {
+				return
+			}
+			named, ok := mi.Type().(*types.Named)
+			if !ok || named.Obj().Pkg() == nil || !strings.HasPrefix(named.Obj().Pkg().Path(), modulePath) {
+				return
+			}
+			n++
+			key := "typed-nil|" + c.ownerName(fn) + "|" + typeName(mi.Type())
+			if mayBeNil(mi.X, 0) {
+				c.bad(key, c.pos(mi.Pos()), fname(fn), fmt.Sprintf("a %s that is nil on some path is wrapped into the interface %s: the interface value is not nil, so the caller's `== nil` test does not fire and the method call that follows runs on a nil pointer (crd panics instead of reporting an error)", typeName(mi.X.Type()), typeName(mi.Type())))
+			}
+		})
+	}
+	c.site(1)
+	c.ok("typed-nil|summary", "", "", fmt.Sprintf("%d conversions of a pointer into one of the repository's interface types, none of a pointer that may be nil", n))
+}
+
 func ruleNilOK(c *Ctx) {
+	c.checkTypedNilInterfaces()
 	flagged := map[*ssa.Function]bool{}
 	fns := c.srcFuncs()
 	n := c.nilOKScan(fns, func(fn *ssa.Function, r *ssa.Return) {
@@ -1180,6 +1227,15 @@ func ruleReject(c *Ctx) {
 		{"chord", "Attribute.validate", "unnamed attribute with a degree", structFval(map[string]fval{"Name": {k: constant.MakeString("")}, "Degree.Value": u(4), "Degree.Name": {k: constant.MakeInt64(1)}})},
 		{"chord", "Chord.validate", "unnamed chord with attributes", structFval(map[string]fval{"Name": {k: constant.MakeString("")}, "Extends": {k: constant.MakeString("MajorTriad")}, "Meta.Display": {k: constant.MakeString("x")}, "Attributes": {cv: &ListV{T: types.NewSlice(types.Typ[types.String]), Elems: []Val{&CVal{V: constant.MakeString("MajorThird"), T: types.Typ[types.String]}}}}})},
 	}
+	oneAttr := fval{cv: &ListV{T: types.NewSlice(types.Typ[types.String]), Elems: []Val{&CVal{V: constant.MakeString("MajorThird"), T: types.Typ[types.String]}}}}
+	cases = append(cases, struct {
+		pkg, fn, label string
+		recv           fval
+	}{"chord", "Chord.validate", "chord with attributes but without a display", structFval(map[string]fval{"Name": {k: constant.MakeString("Abstract")}, "Extends": {k: constant.MakeString("")}, "Meta.Display": {k: constant.MakeString("")}, "Attributes": oneAttr})})
+	cases = append(cases, struct {
+		pkg, fn, label string
+		recv           fval
+	}{"chord", "Chord.validate", "chord that extends another but has no display", structFval(map[string]fval{"Name": {k: constant.MakeString("Abstract")}, "Extends": {k: constant.MakeString("MajorTriad")}, "Meta.Display": {k: constant.MakeString("")}, "Attributes": {isNil: true, t: types.NewSlice(types.Typ[types.String])}})})
 	for _, cs := range cases {
 		fn := c.fn(cs.pkg, cs.fn)
 		key := cs.pkg + "." + cs.fn + "|" + cs.label
@@ -1372,11 +1428,26 @@ func ruleReject(c *Ctx) {
 						}
 						if allPathsReturnError(bad, okb) {
 							good = true
+							// ... and not with the `not given` sentinel, which the callers take for "nothing was written"
+							for _, blk := range fn.Blocks {
+								if blk != bad && !bad.Dominates(blk) {
+									continue
+								}
+								for _, in := range blk.Instrs {
+									if r, ok := in.(*ssa.Return); ok && len(r.Results) > 0 {
+										if ld, ok := r.Results[len(r.Results)-1].(*ssa.UnOp); ok && ld.Op == token.MUL {
+											if g, ok := ld.X.(*ssa.Global); ok && g.Name() == "ErrOK" {
+												good = false
+											}
+										}
+									}
+								}
+							}
 						}
 					}
 				}
 			}
-			c.check(good, fname(fn)+" -> op.NewDynamicSign|unknown", c.pos(ci.Pos()), fname(fn), "an unknown dynamic sign is an error here", "the result of NewDynamicSign is not checked against UnknownDynamicSign here: an unknown dynamic (e.g. --velocity fff) is played with velocity 0, which turns every note-on into a note-off")
+			c.check(good, fname(fn)+" -> op.NewDynamicSign|unknown", c.pos(ci.Pos()), fname(fn), "an unknown dynamic sign is an error here", "the result of NewDynamicSign is not checked against UnknownDynamicSign here (or an unknown sign is answered with the `not given` sentinel and dropped): an unknown dynamic (e.g. --velocity fff, {vel=forte}) is played with velocity 0, which turns every note-on into a note-off, or is silently ignored")
 		}
 	}
 	// DynamicSign: unknown string -> error in UnmarshalYAML
